@@ -309,4 +309,47 @@ RECURSIVE RenameTree(_, _)
 RenameTree(e, map) ==
   [e EXCEPT !.s = IF e.id \in {"GLOBAL", "CALL"} /\ e.s \in DOMAIN map THEN map[e.s] ELSE e.s,
             !.ch = [i \in 1..Len(e.ch) |-> RenameTree(e.ch[i], map)]]
+
+-----------------------------------------------------------------------------
+(* Value-class audit (ValueAuditor): does the expression denote a value that can be computed ("value"), only a      *)
+(* property that can be tested ("props": a power set, the integers, a product with such a factor ...), or is the     *)
+(* use of a property where a value is needed an error ("invalid").                                                   *)
+(* GC: global -> class; FB: function -> [args: Seq(name), body]; LP: the local names that stand for properties      *)
+(* (arguments of a term-function that were given properties).                                                        *)
+RECURSIVE VClass(_, _, _, _)
+VClass(e, GC, FB, LP) ==
+  LET VS == ForceT([i \in 1..Len(e.ch) |-> VClass(e.ch[i], GC, FB, LP)])
+      V(i) == VS[i]
+      N == Len(e.ch)
+      AllOK == \A i \in 1..N : V(i) # "invalid"
+      AllValue == \A i \in 1..N : V(i) = "value"
+  IN
+  CASE e.id \in {"INT", "EMPTY", "RADICAL"} -> "value"
+    [] e.id = "INTSET" -> "props"
+    [] e.id = "GLOBAL" -> IF e.s \in DOMAIN GC THEN GC[e.s] ELSE "invalid"
+    [] e.id = "LOCAL" -> IF e.s \in LP THEN "props" ELSE "value"
+    [] e.id \in {"TUPLEDECL", "ENUMDECL", "NOT"} \cup Arith \cup LogBin \cup OrdPred -> IF AllOK THEN "value" ELSE "invalid"
+    [] e.id \in {"CARD", "BOOL", "DEBOOL", "BIGPR", "SMALLPR", "REDUCE"} -> IF V(1) = "value" THEN "value" ELSE "invalid"
+    [] e.id \in Quant -> IF V(2) = "value" THEN V(3) ELSE "invalid"                       \* the domain must be a value
+    [] e.id \in EqPred \cup {"SUBSET", "NOTSUBSET", "TUPLE", "ENUM", "REC_SHORT", "REC_FULL"} -> IF AllValue THEN "value" ELSE "invalid"
+    [] e.id \in {"IN", "NOTIN", "SUBSET_OR_EQ"} -> IF V(2) # "invalid" /\ V(1) = "value" THEN "value" ELSE "invalid"   \* membership in a property is fine
+    [] e.id = "DECART" -> IF ~AllOK THEN "invalid" ELSE IF \E i \in 1..N : V(i) = "props" THEN "props" ELSE "value"
+    [] e.id = "BOOLEAN" -> IF V(1) # "invalid" THEN "props" ELSE "invalid"
+    [] e.id = "DECLARATIVE" -> IF V(3) # "invalid" THEN V(2) ELSE "invalid"               \* a separation from a property is a property
+    [] e.id = "IMPERATIVE" -> IF (\A i \in 2..N : V(i) # "invalid") /\ V(1) = "value" THEN "value" ELSE "invalid"
+    [] e.id \in {"ITERATE", "ASSIGN"} -> IF V(2) = "value" THEN "value" ELSE "invalid"
+    [] e.id \in SetBin ->
+         IF V(1) = "invalid" \/ V(2) = "invalid" THEN "invalid"
+         ELSE LET a == V(1) = "value"  b == V(2) = "value"
+                  r == CASE e.id \in {"UNION", "SYMMINUS"} -> a /\ b [] e.id = "INTERSECTION" -> a \/ b [] OTHER -> a
+              IN IF r THEN "value" ELSE "props"
+    [] e.id = "FILTER" -> IF AllOK THEN V(N) ELSE "invalid"
+    [] e.id = "CALL" ->
+         IF e.s \notin DOMAIN GC \/ GC[e.s] = "invalid" \/ ~AllOK THEN "invalid"
+         ELSE IF AllValue THEN GC[e.s]
+         ELSE IF e.s \notin DOMAIN FB THEN "invalid"
+         ELSE VClass(FB[e.s].body, GC, FB, {FB[e.s].args[i] : i \in {j \in 1..N : V(j) = "props"}})
+    [] e.id = "FUNCDEF" ->      \* every argument domain is audited, the class is the body's
+         IF \A i \in 1..Len(e.ch[1].ch) : VClass(e.ch[1].ch[i].ch[2], GC, FB, LP) # "invalid" THEN V(2) ELSE "invalid"
+    [] OTHER -> "invalid"
 =============================================================================
